@@ -74,7 +74,18 @@ def σU' : Store :=
   { vars := [{ bound := some (.var 1), lower := some 6, cset := 1 }, { lower := some 6, upper := some 5, cset := 1 }],
     csets := [[], []] }
 
+/-- `bind` of a variable to another one hands the lower bound over through `unify`, whose occurs
+check (`match3`, well-founded recursion) does not evaluate by `rfl`: rewritten away explicitly -/
+theorem exU_bind : bind exL 9 σU 0 (.var 1) = .ok σU' := by
+  rw [bind_var_eq]
+  have e1 : (getVar σU 0).lower = some 6 := rfl
+  have e2 : (getVar σU 0).upper = none := rfl
+  simp only [e1, e2]
+  rw [unify_base_unbound (by with_unfolding_all rfl)]
+  with_unfolding_all rfl
+
 theorem exU_run : unify exL 10 σU (.var 0) (.var 1) true false false = .ok σU' := by
+  rw [← exU_bind]
   with_unfolding_all rfl
 
 /-- `x0` fresh, `x1` with lower bound `B` -/
@@ -83,10 +94,32 @@ def σA' : Store :=
   { vars := [{ bound := some (.app 6 []), lower := some 6 }, { bound := some (.var 0), lower := some 6 }],
     csets := [[], []] }
 
+/-- after the first application: `x1 := x0`, the lower bound `B` handed over to `x0` -/
+def σA1 : Store :=
+  { vars := [{ lower := some 6 }, { bound := some (.var 0), lower := some 6 }], csets := [[], []] }
+
+theorem exA_bind : bind exL 9 σA 1 (.var 0) = .ok σA1 := by
+  rw [bind_var_eq]
+  have e1 : (getVar σA 1).lower = some 6 := rfl
+  have e2 : (getVar σA 1).upper = none := rfl
+  simp only [e1, e2]
+  rw [unify_base_unbound (by with_unfolding_all rfl)]
+  with_unfolding_all rfl
+
+theorem exA_step1 :
+    applyT exL 10 σA (.app FUN [.var 0, .app FUN [.var 0, .var 0]]) (.var 1) true =
+      .ok (σA1, .app FUN [.var 0, .var 0]) := by
+  have u : unify exL 10 σA (followT σA (.var 1)) (.var 0) true false false = .ok σA1 := by
+    rw [← exA_bind]
+    with_unfolding_all rfl
+  rw [applyT_fun, u]
+  rfl
+
 /-- `(x0 ** x0 ** x0)` applied to `x1, x1` with `x1 ≥ B`: result `B` -/
 theorem exA_run :
     applyAll exL 10 true σA (.app FUN [.var 0, .app FUN [.var 0, .var 0]]) [.var 1, .var 1] =
       .ok (σA', .app 6 []) := by
+  rw [applyAll, exA_step1]
   with_unfolding_all rfl
 
 /-- `F(x0) ** x0 ** x0` -/
